@@ -33,7 +33,7 @@ def harness_jobs(lib, label, full, masked_only=False, thorough=False):
     c04 = prog("c04", ["harness/c04.c", "ref/ref.c"])
     c05 = prog("c05", ["harness/c05.c", "ref/ref.c"])
     c06 = prog("c06", ["harness/c06.c", "harness/cpp_shim.cpp"] + STD)
-    c07 = prog("c07", ["harness/c07.c"] + STD)
+    c07 = prog("c07", ["harness/c07.c", "harness/cpp_shim.cpp"] + STD)
     c08 = prog("c08", ["harness/c08.c", "ref/ref.c"])
     c14 = prog("c14", ["harness/c14.c", "harness/cpp_session.cpp"] + STD)
     c15 = prog("c15", ["harness/c15.c"] + STD)
